@@ -27,7 +27,9 @@ LEVEL_TEXT = ("Theorems in Props/C09.v: C09_decode (both quote styles, every bod
 LEVEL_NOTE = "Trusted: Coq kernel; Spec/StringLit.v as a reading of the RFC; correspondence; extraction and driver."
 
 SIMPLE = ["\\b", "\\f", "\\n", "\\r", "\\t", "\\/", "\\\\"]
-RAW = ["a", "b", "Z", "0", " ", "~", "\x7f", "é", " ", "퟿", "", "￿", "\U00010000", "\U0001F600", "\U0010FFFF", "/", "$", "[", "]", "?", "@", "*", ",", ":"]
+RAW = ["a", "b", "Z", "0", " ", "~", "\x7f", "é", " ", "퟿", "", "￿", "\U00010000", "\U0001F600", "\U0010FFFF", "/", "$", "[", "]", "?", "@", "*", ",", ":",
+       # characters and sequences that Unicode normalisation would rewrite (combining marks after a base letter, compatibility characters, jamo)
+       "e\u0301", "\u212b", "\u2126", "\u212a", "\u1100\u1161", "\uf900", "\u037e", "\u0301"]
 BADRAW = ["\x00", "\x01", "\x08", "\t", "\n", "\r", "\x1f"]
 
 
